@@ -42,7 +42,14 @@ RULE = ('random programs with conjunction, disjunction, if-then-else, \\+, cut, 
         'Compared: canonical answers, their number and how the enumeration ended between engine with Python predicates, engine with '
         'everything compiled, and the Coq model of both; values yielded at the top level; for a function that raises instead of its '
         'j-th answer: answers delivered before, exception class and object identity, no binding left.  Non-trivial: a replaced '
-        'predicate with >= 2 rows is called under cut, \\+, if-then-else or a meta-call and some query has an answer.')
+        'predicate with >= 2 rows is called under cut, \\+, if-then-else or a meta-call and some query has an answer.  '
+        'Family "one predicate from mixed sources": the key m/0..3 is defined by a sequence of register_function (three styles, rows ground or '
+        'with variables, yielding False / True / None / 0 / 1 / alternating, 0-2 of them raising), load_script_from_string of clauses of m '
+        '(facts, sometimes cutting) with overwrite False / True, and assert_fact, in every order (fixed corpus: all orders of length 2 and 3; '
+        'random: 3-7 operations), next to a script of rules that call m under conjunction, cut, if-then-else, \\+, once/1, findall/3, call/N; '
+        'queries also after a prefix of the sequence.  Compared: the engine, its all-compiled twin built by the same sequence (each '
+        'fixed-arity register_function with >= 1 row replaced by load_script(its facts, overwrite=True)) and the Coq engine with chains of '
+        'definitions per key (Sem/NativeChainExc.v cqueryE) for both; non-trivial there: >= 3 operations and some query has an answer.')
 TRUSTED_BASE = ['inspect.signature arity inference is exercised, not modelled: the model takes the resulting key']
 ASSUMPTIONS = ['the Python predicate unifies its arguments with each row and yields once per solution (well-behaved)']
 
@@ -329,6 +336,13 @@ def anon(x):
         return [anon(y) for y in x]
     return x
 
+def findall_sharing(uf, m_py, m_compiled):
+    """the model's engine with Python predicates and its all-compiled engine differ ONLY in the identity of variables, in a program
+    that uses findall/3: findall does not copy the instances it collects, so a variable the goal leaves unbound is shared between them
+    with compiled clauses and distinct with a Python predicate (see same_modulo_findall; the implementation flags it through
+    semcheck.watch_findall only when the enumeration gets that far - not when a predicate raises first)"""
+    return bool(uf) and m_py['answers'] != m_compiled['answers'] and anon(m_py['answers']) == anon(m_compiled['answers'])
+
 def uses_findall(case):
     cs = set()
     for _, _, b in case['clauses']:
@@ -360,12 +374,13 @@ def compare_phase(case, ioA, ioB, mo, natives, tagmap=None):
     # identity of variables that findall/3 collects from DIFFERENT answers is outside the model's cell naming (semcheck.watch_findall
     # notices it on the implementation): such a query is compared with the model without variable identity; engine A against B stays exact
     final = ioB is not None
+    uf = uses_findall(case)
     for q, a0, b0, m in zip(case['queries'], ioA, ioB if final else ioA, mo):
         mn, mc, mnr = view(m[0]), view(m[1]), view(m[3])
         if tagmap is not None and mn['exn'][0] == 'py':
             mn['exn'] = ['py', tagmap[mn['exn'][1]]]      # position in the registered subset -> position in the case
         a, b = a0, b0
-        fa = a0.get('findall_inner') or b0.get('findall_inner')
+        fa = a0.get('findall_inner') or b0.get('findall_inner') or findall_sharing(uf, mnr, mc)
         if fa:
             mn, mc, mnr = [dict(v, answers=anon(v['answers'])) for v in (mn, mc, mnr)]
             a, b = dict(a0, answers=anon(a0['answers'])), dict(b0, answers=anon(b0['answers']))
@@ -662,6 +677,7 @@ def compare_mixed(case, io, mo):
     if any(m and m[0] == 'stuck' for m in mo):
         return 'model compiler stuck'
     raisers = [i for i, s in enumerate(case['native']) if s.get('raise') is not None]
+    uf = uses_findall(dict(case, clauses=mixed_clauses(case)))
     for rnd, k in enumerate(case['rounds']):
         where = 'after %d of %d operations, ' % (k, len(case['ops']))
         for pair in mo[rnd][-1]:
@@ -670,7 +686,7 @@ def compare_mixed(case, io, mo):
         for q, a0, b0, m in zip(case['queries'], io['Ar'][rnd], io['Br'][rnd], mo[rnd]):
             mn, mt, mnr = view(m[0]), view(m[1]), view(m[3])
             a, b = a0, b0
-            if a0.get('findall_inner') or b0.get('findall_inner'):
+            if a0.get('findall_inner') or b0.get('findall_inner') or findall_sharing(uf, mnr, mt):
                 mn, mt, mnr = [dict(v, answers=anon(v['answers'])) for v in (mn, mt, mnr)]
                 a, b = dict(a0, answers=anon(a0['answers'])), dict(b0, answers=anon(b0['answers']))
             t = where + 'query ' + qtext(q)
